@@ -342,13 +342,47 @@ static void do_fpbend(const J& g, W& w) {
     std::vector<int> in(qs.size(), 0);
     if (out.count == 1)
         for (size_t k = 0; k < qs.size(); k++) in[k] = inside_poly(out[0]->point_array, qs[k]) ? 1 : 0;
+    // the centre line a PATH record would be written from (simple path): element_center
+    Array<Vec2> cpts = {};
+    f.simple_path = true;
+    ErrorCode ce = f.element_center(f.elements, cpts);
+    bool cfin = true;
+    for (uint64_t i = 0; i < cpts.count; i++)
+        if (!std::isfinite(cpts[i].x) || !std::isfinite(cpts[i].y)) cfin = false;
+    w.kv("cerr", (int64_t)ce).kv("cnpts", (int64_t)cpts.count).kb("cfinite", cfin);
+    auto seg_dist = [](Vec2 q, Vec2 a, Vec2 b) {
+        Vec2 ab = b - a;
+        double l2 = ab.length_sq();
+        double t = l2 > 0 ? fmax(0.0, fmin(1.0, (q - a).inner(ab) / l2)) : 0.0;
+        return (a + ab * t - q).length();
+    };
     w.key("choices").begin_arr();
     for (int mask = 0; mask < (1 << nc); mask++) {
         std::vector<int> choice(nc);
         for (size_t i = 0; i < nc; i++) choice[i] = (mask >> i) & 1;
         std::vector<Vec2> cen;
         bend_curve(sp, tans, choice, R, off, cen);
-        w.begin_obj().key("c").begin_arr();
+        w.begin_obj();
+        {
+            // two-sided distance between element_center's polyline and this choice's exact centre curve
+            double fwd = 0, rev = 0;
+            if (cfin && cpts.count >= 2) {
+                for (uint64_t i = 0; i < cpts.count; i++) {
+                    double best = 1e300;
+                    for (auto& c : cen) best = fmin(best, (c - cpts[i]).length_sq());
+                    fwd = fmax(fwd, sqrt(best));
+                }
+                for (size_t k = 0; k < cen.size(); k += 7) {
+                    double best = 1e300;
+                    for (uint64_t i = 0; i + 1 < cpts.count; i++) best = fmin(best, seg_dist(cen[k], cpts[i], cpts[i + 1]));
+                    rev = fmax(rev, best);
+                }
+            } else {
+                fwd = rev = 1e6;
+            }
+            w.kv("cdev", (int64_t)fmin(2e9, ceil(fmax(fwd, rev) / (tol * 1e-3))));
+        }
+        w.key("c").begin_arr();
         for (size_t i = 0; i < nc; i++) w.i(choice[i]);
         w.end_arr().key("samples").begin_arr();
         for (size_t k = 0; k < qs.size(); k++) {
@@ -370,6 +404,7 @@ static void do_fpbend(const J& g, W& w) {
         w.end_arr().end_obj();
     }
     w.end_arr();
+    cpts.clear();
     free_polys(out);
 }
 
